@@ -177,7 +177,9 @@ type Fault struct {
 	Field string // nonce | server_nonce | fingerprints | sha1 | new_nonce_hash | kind
 	Kind  string // flip | random | other | zero | empty | one-wrong | several-wrong | flip-fp | prefix-flip | content-flip | hash2 | hash3 | random-hash | params_fail | gen_retry | gen_fail
 	Bit   int
-	Rand  []byte // 16 random bytes for "random"
+	// OtherFP: resPQ.fingerprints "other-clients-key": the only fingerprint offered
+	OtherFP int64  `json:",omitempty"`
+	Rand    []byte // 16 random bytes for "random"
 }
 
 // HSObs is what the server learnt during a key exchange.
@@ -574,6 +576,9 @@ func (c *Conn) plain(f []byte) error {
 				fps = []int64{real + 1, real - 1, ^real, 0}
 			case "flip-fp":
 				fps = []int64{real ^ (1 << uint(flt.Bit%64))}
+			case "other-clients-key":
+				// the fingerprint of a key another client of the same process is configured with (and has used)
+				fps = []int64{flt.OtherFP}
 			}
 		}
 		w := &W{}
